@@ -678,11 +678,25 @@ def _listcomp_symbolic(engine, st, fr, e, g, it):
         loop = ast.For(target=g.target, iter=g.iter, body=[ast.Expr(value=e.elt)], orelse=[], lineno=e.lineno, col_offset=e.col_offset)
         ast.fix_missing_locations(loop)
         # register as an extra loop of this function so ordinal lookup does not fail
-        for st1, ctrl in _for_effectful_comp(engine, st, fr, loop, it):
+        # element i of the result is NAMED comp_elem(i): the value the element expression produced in iteration i
+        elem_fn = z3.Function("comp_elem!%d" % next(_COMP_IDS), I, Val)
+        for st1, ctrl in _for_effectful_comp(engine, st, fr, loop, it, elem_fn):
             if ctrl is None:
                 out = b_cont.new_container(engine, st1, "list")
-                st1.put("$len", Val.id(out.t), fresh("lc_len", I))
-                st1.assume(st1.get("$len", Val.id(out.t)) >= 0)
+                if not g.ifs:
+                    # no filter: one element per iteration, in iteration order (the source is not resized meanwhile:
+                    # obligation `sequence not mutated while iterating` in the body)
+                    # ... provided the source still is what it was (it may have been handed to foreign code, which may resize it:
+                    # the comprehension then simply runs over whatever is there, and nothing is claimed about the length)
+                    same = z3.And(st1.get("$len", src["oid"]) == n, st1.get("$at", src["oid"]) == src["at"]) if src["kind"] == "seq" else z3.BoolVal(True)
+                    ln = fresh("lc_len", I)
+                    st1.assume(ln >= 0)
+                    st1.put("$len", Val.id(out.t), z3.If(same, n, ln))
+                    st1.put("$at", Val.id(out.t), z3.Lambda([i], elem_fn(i)))
+                    st1.ghost["lc:%d" % e.lineno] = {"n": n, "elem_fn": elem_fn, "src": src, "out": out.t, "effectful": True}
+                else:
+                    st1.put("$len", Val.id(out.t), fresh("lc_len", I))
+                    st1.assume(st1.get("$len", Val.id(out.t)) >= 0)
                 yield st1, out
             elif ctrl[0] == "raise":
                 yield st1, _Raise(ctrl[1])
@@ -730,7 +744,11 @@ def _listcomp_symbolic(engine, st, fr, e, g, it):
     yield st, out
 
 
-def _for_effectful_comp(engine, st, fr, loop, it):
+import itertools as _it
+_COMP_IDS = _it.count(1)
+
+
+def _for_effectful_comp(engine, st, fr, loop, it, elem_fn=None):
     # Loop spec lookup by ordinal needs the node to be part of the function; use default spec.
     from .symexec import LoopSpec
     saved = engine.cfg.loops
@@ -749,13 +767,22 @@ def _for_effectful_comp(engine, st, fr, loop, it):
         st_b.trace.append(Event("loop-head", site=engine.site(fr, loop), extra={"comp": True, "i": i, "iter": getattr(it, "t", None)}))
         if engine.feasible(st_b):
             st_b.decisions.append(("comprehension body", True))
-            for st1, r in engine.assign(loop.target, src["elem"](st_b, i), st_b, cfr):
-                for st2, ctrl in engine.exec_block(loop.body, st1, cfr):
-                    if ctrl is None:
-                        engine.n_paths += 1
-                        _end_of_iteration(engine, st2, fr)
-                    else:
-                        yield st2, ctrl
+            x = src["elem"](st_b, i)
+            t_head = len(st_b.trace)
+            cspec = getattr(engine.cfg, "comp_specs", {}).get(fr.func.qualname if fr.func is not None else None)
+            for st1, r in engine.assign(loop.target, x, st_b, cfr):
+                for st2, v in engine.ev(loop.body[0].value, st1, cfr):
+                    if _is_raise(v):
+                        yield st2, ("raise", v.exc)
+                        continue
+                    if cspec is not None:
+                        vt = engine.to_val(st2, v)
+                        if elem_fn is not None:
+                            st2.assume(elem_fn(i) == vt)
+                        for (nm, f) in cspec(engine, st2, fr, {"i": i, "x": x, "v": vt, "elem_fn": elem_fn}, st2.trace[t_head:]):
+                            engine.oblige(st2, fr, "comprehension in %s body: %s" % (fr.func.qualname.split(".")[-1], nm), "LI", f)
+                    engine.n_paths += 1
+                    _end_of_iteration(engine, st2, fr)
         st_e = entry
         _havoc_heap_for_loop(engine, st_e, spec, loop.body, fr)
         st_e.trace.append(Event("loop-exit", site=engine.site(fr, loop), extra={"comp": True, "iter": getattr(it, "t", None)}))
